@@ -293,6 +293,8 @@ def v1_limit_uses(chk, F, F0, tree, tag):
                 if cp in dep:
                     n += 1
                     ok = t["k"] in ("assert",)
+                    if t["k"] == "call" and core.strip_generics(core.callee_path(t) or "").endswith("RangeInclusive::new") and not t["dest"]["proj"]:
+                        ok = range_is_selector_only(F, f, t["dest"]["local"]) is None
                     chk.ob("V1.build-limit-used-only-as-limit", "%s|%s|term%s" % (f.key, cp.rsplit("::", 1)[-1], tag), ok,
                            "in %s the build-time limit %s is passed directly to %s" % (f.path, cp, core.callee_path(t) if t["k"] == "call" else t["k"]), where=f.loc(b))
     chk.count("limit_constant_uses", n)
